@@ -88,16 +88,16 @@ fn twin_write(c: &Concrete<'_>, a: &mut [u8], b: &mut [u8], sa: &mut [u8], sb: &
     (ra, None)
 }
 
-fn case1(spec: &Spec, cap: usize, prefill_seed: u64, hash_key: u64, probes: u64) -> J {
-    J::obj().set("scenario", 1).set("spec", spec.to_json()).set("cap", cap).set("prefill_seed", prefill_seed).set("hash_key", hash_key).set("probes", probes)
+fn case1(spec: &Spec, cap: usize, prefill_seed: u64, hash_key: u64, probes: u64, tape: &[u32]) -> J {
+    J::obj().set("scenario", 1).set("spec", spec.to_json()).set("cap", cap).set("prefill_seed", prefill_seed).set("hash_key", hash_key).set("probes", probes).set("tape", tape.to_vec())
 }
 fn case2(specs: &[Spec], cap: usize, prefill_seed: u64, hash_key: u64) -> J {
     J::obj().set("scenario", 2).set("specs", J::Arr(specs.iter().map(|s| s.to_json()).collect())).set("cap", cap).set("prefill_seed", prefill_seed).set("hash_key", hash_key)
 }
 
 /// Scenario 1: one write of `spec` into a buffer of exactly `cap` bytes in both worlds.
-fn run1(spec: &Spec, cap: usize, prefill_seed: u64, hash_key: u64, probes: u64, panics: &mut u64) -> (WRes, Option<(String, String)>) {
-    let plan = plan_canonical(spec);
+fn run1(spec: &Spec, cap: usize, prefill_seed: u64, hash_key: u64, probes: u64, tape: &[u32], panics: &mut u64) -> (WRes, Option<(String, String)>) {
+    let plan = crate::c06::plan_for(spec, tape);
     realise_probed(&plan, hash_key, probes, |c| {
         let (mut a, mut b) = prefill(prefill_seed, cap);
         let (mut sa, mut sb) = (a.clone(), b.clone());
@@ -223,7 +223,9 @@ impl Check for C17 {
         let kind = spec.kind_name();
         let kh = fnv1a(FNV_INIT, kind.as_bytes());
         let prefill_seed = ar.next_u64();
-        let plan = plan_canonical(&spec);
+        // a quarter of the configurations are reached through a seeded call history
+        let tape: Vec<u32> = if ar.chance(1, 4) { (0..96).map(|_| ar.u32()).collect() } else { Vec::new() };
+        let plan = crate::c06::plan_for(&spec, &tape);
         // in a quarter of the episodes the unfinished builders were observed (size query, scratch
         // write) between configuration calls before the finished builder is written
         let probes = if ar.chance(1, 4) { ar.next_u64() | 1 } else { 0 };
@@ -248,7 +250,7 @@ impl Check for C17 {
                 ctx.stats.fault("residue-twin", 1);
                 ctx.stats.fault("capacity", 1);
                 let rc = match &r {
-                    WRes::Ok(n) => 1 + ((cap - n).min(9) as u64),
+                    WRes::Ok(n) => 1 + (cap.saturating_sub(*n).min(9) as u64),
                     WRes::Err(crate::c06::RtcpWriteErrorS::TooSmall(_)) => 20,
                     WRes::Err(_) => 21,
                     WRes::Panic(_) => 22,
@@ -265,7 +267,7 @@ impl Check for C17 {
         });
         if let Some((cap, what, detail)) = found {
             // prefill for the replay: same seed, the replay takes the first `cap` bytes of the same stream
-            out.push(Violation { class: format!("{what}@{kind}"), detail, episode: idx, case: case1(&spec, cap, prefill_seed, hash_key, probes), provenance: J::obj().set("swarm", gcfg.to_json()) });
+            out.push(Violation { class: format!("{what}@{kind}"), detail, episode: idx, case: case1(&spec, cap, prefill_seed, hash_key, probes, &tape), provenance: J::obj().set("swarm", gcfg.to_json()) });
         }
         if ctx.stats.wants_sample("single-write", idx) && spec.weight() < 50 {
             ctx.stats.sample("single-write", idx, || J::obj().set("scenario", 1).set("spec", spec.to_json()).set("capacities", "0..=n+8 in two worlds A and !A"));
@@ -306,7 +308,7 @@ impl Check for C17 {
         match case.usize_of("scenario")? {
             1 => {
                 let spec = Spec::from_json(case.obj_of("spec")?)?;
-                let (r, v) = run1(&spec, cap, ps, key, case.u64_of("probes").unwrap_or(0), &mut panics);
+                let (r, v) = run1(&spec, cap, ps, key, case.u64_of("probes").unwrap_or(0), &crate::c06::case_tape(case), &mut panics);
                 if let Some(l) = log {
                     let (a, b) = prefill(ps, cap.min(32));
                     l.push(format!("world A prefill {}.. world B prefill {}..", hex(&a), hex(&b)));
@@ -332,26 +334,35 @@ impl Check for C17 {
         if sc == 1 {
             let Ok(spec) = case.obj_of("spec").and_then(Spec::from_json) else { return vec![] };
             let probes = case.u64_of("probes").unwrap_or(0);
+            let tape = crate::c06::case_tape(case);
             for s in spec.shrinks() {
-                out.push(case1(&s, cap, ps, key, probes));
+                out.push(case1(&s, cap, ps, key, probes, &tape));
                 for c in [8usize, 12, 16, 20, 24, 28, 32, 40, 48] {
                     if c != cap {
-                        out.push(case1(&s, c, ps, key, probes));
+                        out.push(case1(&s, c, ps, key, probes, &tape));
                     }
                 }
             }
             for c in [cap / 2, cap.saturating_sub(4), cap.saturating_sub(1)] {
                 if c != cap {
-                    out.push(case1(&spec, c, ps, key, probes));
+                    out.push(case1(&spec, c, ps, key, probes, &tape));
+                }
+            }
+            if !tape.is_empty() {
+                out.push(case1(&spec, cap, ps, key, probes, &[]));
+                for t in crate::shrinkb::shrink_tape(&tape).into_iter().take(12) {
+                    if !t.is_empty() {
+                        out.push(case1(&spec, cap, ps, key, probes, &t));
+                    }
                 }
             }
             if probes != 0 {
-                out.push(case1(&spec, cap, ps, key, 0));
-                out.push(case1(&spec, cap, ps, key, u64::MAX));
+                out.push(case1(&spec, cap, ps, key, 0, &tape));
+                out.push(case1(&spec, cap, ps, key, u64::MAX, &tape));
             }
             for p in [0u64, 1] {
                 if p != ps {
-                    out.push(case1(&spec, cap, p, key, probes));
+                    out.push(case1(&spec, cap, p, key, probes, &tape));
                 }
             }
         } else {
@@ -359,7 +370,7 @@ impl Check for C17 {
             // a single spec alone (scenario 1 is simpler when it already shows there)
             for s in &specs {
                 for c in [16usize, 24, 32, 64, cap] {
-                    out.push(case1(s, c, ps, key, 0));
+                    out.push(case1(s, c, ps, key, 0, &[]));
                 }
             }
             for i in 0..specs.len() {
